@@ -39,7 +39,13 @@ def pool_models():
     w4 = json.loads(json.dumps(base))
     w4['sheets'][0]['cells']['E1'] = '=1+'                # malformed formula (whole-file translation must fail, entry C1 must not)
     w4['sheets'][0]['cells']['E2'] = '=NOSUCH(1)'
-    return [base, w1, w2, w3, w4]
+    # a chain of 400 formulas each referring to the next row: deeper than the default interpreter stack, so the outcome is the
+    # parser exception - in every thread and process alike (a translation must not change process-wide limits under others)
+    deep = {'A1': 1, 'C1': '=B1*2'}
+    for i in range(1, 401):
+        deep[f'B{i}'] = f'=B{i + 1}+1' if i < 400 else '=A1'
+    w5 = {'sheets': [{'title': 'S', 'cells': deep}, {'title': 'T', 'cells': {'A1': 10, 'B1': '=A1+S!A1', 'B2': 'text'}}]}
+    return [base, w1, w2, w3, w4, w5]
 
 
 ENTRIES = [None, ['S', 'C', '1'], ['S', 'C', '2'], ['S', 'D', '1'], ['T', 'B', '1'], [0, 2, 0], [1, 1, 0], ['S', 'D', '2'], ['S', 'E', '1'], ['T', 'B', '2']]
@@ -83,6 +89,10 @@ def show(o):
 
 
 def replay(history, counter=None):
+    try:
+        os.unlink(os.path.join(env.tmpdir(), 'generated_module.py'))
+    except OSError:
+        pass
     paths = make_pool(env.tmpdir())
     parser = wbk.Parser()
     state = {'path': None, 'entry': None, 'safety': True}
@@ -111,7 +121,8 @@ def replay(history, counter=None):
             if op == 'get':
                 got = outcome_of(parser.get_translation)
             else:
-                out = wbk.new_path('.py')
+                # the same target every time, like a build step that regenerates one module
+                out = os.path.join(env.tmpdir(), 'generated_module.py')
 
                 def w():
                     parser.write_translation(out)
@@ -124,10 +135,6 @@ def replay(history, counter=None):
                         fails.append({'case': {'steps': history['steps'][:n + 1]}, 'expected': show(ret), 'actual': show(got),
                                       'relation': 'written-file-equals-returned-text', 'bucket': 'write-vs-get'})
                         return fails
-                try:
-                    os.unlink(out)
-                except OSError:
-                    pass
             want = fresh(paths, state)
             if counter is not None:
                 counter.append(1)
@@ -226,8 +233,8 @@ def run_child(job, hashseed):
 
 def matrix_items():
     items = []
-    for wi in range(5):
-        for entry in ENTRIES[:8]:
+    for wi in range(6):
+        for entry in ENTRIES[:8] if wi < 5 else [None, ['S', 'C', '1'], ['S', 'B', '399'], ['T', 'B', '1']]:
             for safety in (False, True) if wi == 3 else (False,):
                 items.append([wi, entry, safety])
     return items
@@ -238,6 +245,13 @@ def run_case(case):
         return replay(case)
     # a process / thread job
     paths = make_pool(env.tmpdir())
+    if case['job']['kind'] == 'threads':
+        # the interleaving is not the harness' to choose: a divergence seen once is looked for again a few times
+        for _ in range(8):
+            fs = run_job(case, paths)
+            if fs:
+                return fs
+        return []
     return run_job(case, paths)
 
 
@@ -269,7 +283,7 @@ def build_machine(rec):
             super().__init__()
             self.steps = []
 
-        @rule(i=st.integers(0, 4))
+        @rule(i=st.integers(0, 5))
         def set_path(self, i):
             self.steps.append(['path', i])
 
@@ -334,7 +348,8 @@ def run_shard(spec, rec):
     else:
         order = list(items)
         rnd.shuffle(order)
-        jobs = [{'kind': 'threads', 'threads': 8, 'items': order[:16], 'repeat': spec['repeat']}]
+        deep_items = [it for it in items if it[0] == 5]
+        jobs = [{'kind': 'threads', 'threads': 8, 'items': order[:12] + deep_items, 'repeat': spec['repeat']}]
     for job in jobs:
         if rec.out_of_time():
             break
